@@ -2,7 +2,7 @@
    Only ExtrOcamlBasic is used (bool, option, unit, list, prod, sumbool, sumor
    mapped to OCaml's); N, positive, Z, nat stay the extracted inductive types. *)
 From Coq Require Import ExtrOcamlBasic.
-From XD Require Import Model.Base Model.Ellipsis Model.Checker.
+From XD Require Import Model.Base Model.Ellipsis Model.Checker Model.Parser.
 Extraction Language OCaml.
 Extraction "../ocaml/xdmodel_core.ml"
   is_space is_linebreak is_word
@@ -12,4 +12,6 @@ Extraction "../ocaml/xdmodel_core.ml"
   split_ell ellipsis_match
   strip_ansi rm_prefix rm_blankline rm_trailing_ws drop_cr_lines collapse_ws delete_ws
   norm_repr normalize check_match check_output strip_exception_details extract_exc_want_cb
-  check_exception_cb check_got_vs_want default_flags strict_flags is_uU is_bB.
+  check_exception_cb check_got_vs_want default_flags strict_flags is_uU is_bB
+  expandtabs min_indentation normalize_docstring label_lines group_lines parse oracles_of_tables is_balanced o_bal
+  locate_ps1 package_chunk.
